@@ -12,6 +12,7 @@ import (
 	"context"
 	"fmt"
 	"net"
+	"sync"
 	"testing"
 	"time"
 
@@ -33,6 +34,12 @@ type c19cScenario struct {
 	First       int  `json:"first_wave"`  // overlapping deliveries before the pause
 	Second      int  `json:"second_wave"` // overlapping deliveries after it
 	LongPause   bool `json:"pause_exceeds_idle_time"`
+	// one delivery of the first wave finishes 0.7 s before the others: after a short pause its connection alone
+	// has outlived conn_max_idle_time 1 (the bucket, refreshed by the later returns, has not)
+	Staggered bool `json:"staggered_first_wave,omitempty"`
+	// the next hop drops idle connections after 300 ms with a 421 reply; the cached connections are then closed
+	// by shutting the target down
+	ServerTimesOut bool `json:"server_idle_timeout,omitempty"`
 }
 
 func c19cWave(ctx context.Context, tgt *Target, n int, tag string) error {
@@ -63,9 +70,27 @@ func c19cWave(ctx context.Context, tgt *Target, n int, tag string) error {
 	return nil
 }
 
+// c19cConn counts Close calls on the socket a cached connection wraps.
+type c19cConn struct {
+	net.Conn
+	mu     sync.Mutex
+	closed int
+}
+
+func (c *c19cConn) Close() error {
+	c.mu.Lock()
+	c.closed++
+	c.mu.Unlock()
+	return c.Conn.Close()
+}
+
 func c19cRun(sc c19cScenario) (vs []ev.V) {
 	r := ev.Get("C19")
-	hop, err := verifx.StartNextHop(verifx.HopConfig{Name: "mx.one.invalid", UTF8: true})
+	hc := verifx.HopConfig{Name: "mx.one.invalid", UTF8: true}
+	if sc.ServerTimesOut {
+		hc.IdleTimeout = 300 * time.Millisecond
+	}
+	hop, err := verifx.StartNextHop(hc)
 	if err != nil {
 		r.HarnessError("next hop: %v", err)
 		return nil
@@ -85,18 +110,109 @@ func c19cRun(sc c19cScenario) (vs []ev.V) {
 		r.HarnessError("target.remote init: %v", err)
 		return nil
 	}
-	defer tgt.Close()
+	tgtClosed := false
+	closeTgt := func() {
+		if !tgtClosed {
+			tgtClosed = true
+			tgt.Close()
+		}
+	}
+	defer closeTgt()
 	tgt.Log = log.Logger{Out: log.NopOutput{}}
 	tgt.extResolver = nil
 	tgt.resolver = &mockdns.Resolver{Zones: map[string]mockdns.Zone{
 		"one.invalid.":    {MX: []net.MX{{Host: "mx.one.invalid.", Pref: 10}}},
 		"mx.one.invalid.": {A: []string{"127.0.0.1"}},
 	}}
+	var cmu sync.Mutex
+	var dialed []*c19cConn
 	tgt.dialer = func(ctx context.Context, network, addr string) (net.Conn, error) {
-		return (&net.Dialer{}).DialContext(ctx, "tcp", hop.Addr)
+		c, err := (&net.Dialer{}).DialContext(ctx, "tcp", hop.Addr)
+		if err != nil {
+			return nil, err
+		}
+		cc := &c19cConn{Conn: c}
+		cmu.Lock()
+		dialed = append(dialed, cc)
+		cmu.Unlock()
+		return cc, nil
 	}
 	ctx, cancel := context.WithTimeout(context.Background(), 30*time.Second)
 	defer cancel()
+	if sc.ServerTimesOut {
+		// every socket the target opened is closed once the target has been shut down, also when the server
+		// announced its own time-out (421) in the meantime
+		if err := c19cWave(ctx, tgt, sc.First, "a"); err != nil {
+			r.HarnessError("first wave: %v", err)
+			return nil
+		}
+		time.Sleep(700 * time.Millisecond)
+		closeTgt()
+		time.Sleep(300 * time.Millisecond) // the pool closes evicted connections in the background
+		cmu.Lock()
+		defer cmu.Unlock()
+		for i, c := range dialed {
+			c.mu.Lock()
+			n := c.closed
+			c.mu.Unlock()
+			if n == 0 {
+				vs = append(vs, ev.Vf("config:socket-never-closed:server-timed-out", "connection %d of %d was cached, dropped by the next hop after its idle time-out (421) and never closed on maddy's side although the target was shut down", i, len(dialed)))
+				break
+			}
+		}
+		return vs
+	}
+	if sc.Staggered {
+		hdr := textproto.Header{}
+		hdr.Add("Subject", "c19 staggered")
+		open := func(tag string) (module.Delivery, error) {
+			d, err := tgt.Start(ctx, &module.MsgMetadata{ID: "c19c-" + tag}, "sender@src.invalid")
+			if err != nil {
+				return nil, err
+			}
+			if err := d.AddRcpt(ctx, "user@one.invalid", smtp.RcptOptions{}); err != nil {
+				d.Abort(ctx)
+				return nil, err
+			}
+			return d, nil
+		}
+		// all deliveries open their connections now; the first one finishes at once, the others 0.7 s later
+		var ds []module.Delivery
+		for i := 0; i < sc.First; i++ {
+			d, err := open(fmt.Sprintf("w%d", i))
+			if err != nil {
+				r.HarnessError("staggered: %v", err)
+				return nil
+			}
+			ds = append(ds, d)
+		}
+		for i, d := range ds {
+			if i == 1 {
+				time.Sleep(700 * time.Millisecond)
+			}
+			if err := d.Body(ctx, hdr, buffer.MemoryBuffer{Slice: []byte("x\r\n")}); err != nil {
+				r.HarnessError("staggered body: %v", err)
+				return nil
+			}
+			d.Commit(ctx)
+		}
+		before := hop.Sessions()
+		time.Sleep(600 * time.Millisecond) // the early connection is now >= 1.3 s old, the others about 0.6 s
+		if err := c19cWave(ctx, tgt, sc.Second, "b"); err != nil {
+			r.HarnessError("second wave: %v", err)
+			return nil
+		}
+		reused := sc.Second - (hop.Sessions() - before)
+		// the connection returned first was last used 1.3 s ago; it also occupies one of the idle slots
+		young := sc.First - 1
+		if young > sc.IdleCount-1 {
+			young = sc.IdleCount - 1
+		}
+		if reused > young {
+			vs = append(vs, ev.Vf("config:idle-time-not-enforced:connection-older-than-its-bucket", "conn_max_idle_time 1 s: %d connections were cached, the first of them last used 1.3 s ago; %d of %d later deliveries reused a cached connection, at most %d may", sc.First, reused, sc.Second, young))
+		}
+		return vs
+	}
 	if err := c19cWave(ctx, tgt, sc.First, "a"); err != nil {
 		r.HarnessError("first wave: %v", err)
 		return nil
@@ -132,9 +248,19 @@ func c19cRun(sc c19cScenario) (vs []ev.V) {
 func TestVerifC19RemoteConfig(t *testing.T) {
 	r := ev.Get("C19")
 	ev.Run(t, r, ev.Spec[c19cScenario]{Name: "remote-config", N: r.N, Journal: true, Gen: func(t *rapid.T) c19cScenario {
-		return c19cScenario{IdleTimeSec: rapid.IntRange(1, 2).Draw(t, "idle_time"), IdleCount: rapid.IntRange(1, 3).Draw(t, "idle_count"),
+		sc := c19cScenario{IdleTimeSec: rapid.IntRange(1, 2).Draw(t, "idle_time"), IdleCount: rapid.IntRange(1, 3).Draw(t, "idle_count"),
 			First: rapid.IntRange(1, 4).Draw(t, "first"), Second: rapid.IntRange(1, 4).Draw(t, "second"), LongPause: rapid.Bool().Draw(t, "long_pause")}
+		switch rapid.IntRange(0, 3).Draw(t, "variant") {
+		case 0:
+			sc.Staggered, sc.IdleTimeSec, sc.LongPause = true, 1, false
+			if sc.First < 2 {
+				sc.First = 2
+			}
+		case 1:
+			sc.ServerTimesOut, sc.IdleTimeSec, sc.LongPause = true, 2, false
+		}
+		return sc
 	}, Run: c19cRun, Info: func(sc c19cScenario) ev.Info {
-		return ev.Info{Nontrivial: sc.LongPause || sc.First > sc.IdleCount, Classes: []string{fmt.Sprintf("long_pause=%v", sc.LongPause)}}
+		return ev.Info{Nontrivial: sc.LongPause || sc.First > sc.IdleCount || sc.Staggered || sc.ServerTimesOut, Classes: []string{fmt.Sprintf("long_pause=%v", sc.LongPause), fmt.Sprintf("staggered=%v", sc.Staggered), fmt.Sprintf("server_times_out=%v", sc.ServerTimesOut)}}
 	}})
 }
